@@ -111,17 +111,43 @@ func (w *walker) collect(n yang.Node, parent yang.Node) {
 	}
 	v := reflect.ValueOf(n).Elem()
 	t := v.Type()
+	var byName []yang.Node // children that the lookup by name covers
+	defer func() {
+		// the lookup by name finds every child it covers (those in fields not marked nomerge; through
+		// a uses statement it looks into the grouping, so with several children of one name any of
+		// them may come back - but never nothing)
+		for _, c := range byName {
+			var got yang.Node
+			if pan, pt := core.Guard(func() { got = yang.ChildNode(n, c.NName()) }); pan {
+				w.problem("ChildNode(%s %q, %q) panics: %s", st.Keyword, st.Argument, c.NName(), pt)
+				continue
+			}
+			if got == nil || reflect.ValueOf(got).IsNil() || got.NName() != c.NName() {
+				w.problem("ChildNode(%s %q, %q) does not find the %s statement of that name", st.Keyword, st.Argument, c.NName(), c.Kind())
+			}
+		}
+	}()
 	for i := 0; i < t.NumField(); i++ {
 		f := t.Field(i)
-		tag := strings.Split(f.Tag.Get("yang"), ",")[0]
+		tags := strings.Split(f.Tag.Get("yang"), ",")
+		tag := tags[0]
 		if tag == "" || tag == "Name" || tag == "Statement" || tag == "Parent" || tag == "Ext" {
 			continue
+		}
+		merge := tag != "uses"
+		for _, x := range tags[1:] {
+			if x == "nomerge" {
+				merge = false
+			}
 		}
 		fv := v.Field(i)
 		last := -1
 		check := func(c yang.Node) {
 			if c == nil || reflect.ValueOf(c).IsNil() {
 				return
+			}
+			if merge {
+				byName = append(byName, c)
 			}
 			cs := c.Statement()
 			if cs != nil {
@@ -308,6 +334,8 @@ func meta(k string) bool {
 
 const nShards = 16
 
+const nPairShards = 8
+
 func maxDepth(tier string) int {
 	if tier == "thorough" {
 		return 6
@@ -344,6 +372,9 @@ func shards(tier string) []string {
 	var out []string
 	for i := 0; i < nShards; i++ {
 		out = append(out, fmt.Sprintf("ctx/%d", i))
+	}
+	for i := 0; i < nPairShards; i++ {
+		out = append(out, fmt.Sprintf("pairs/%d", i))
 	}
 	return append(out, "toplevel", "long/0", "long/1", "long/2", "long/3", "long/4", "long/5", "long/6", "long/7")
 }
@@ -402,6 +433,34 @@ func run(c *core.Ctx) {
 		default:
 			c.Outcome("rejected")
 		}
+	}
+	if strings.HasPrefix(c.Shard, "pairs/") {
+		// two substatements of different kinds below every context that takes both, in both orders:
+		// what is filed for one kind must not depend on which other kinds the parent holds
+		var pk int
+		fmt.Sscanf(c.Shard, "pairs/%d", &pk)
+		for ci, chain := range contexts("quick") {
+			if ci%nPairShards != pk || c.Expired() {
+				continue
+			}
+			var acc []string
+			for _, k := range K {
+				if meta(k) {
+					continue
+				}
+				if f, ok := check(Input{Text: render(chain, stmt(k, "y", 0))}); f == nil && ok {
+					acc = append(acc, k)
+				}
+			}
+			for _, k1 := range acc {
+				for _, k2 := range acc {
+					if k1 != k2 {
+						one(Input{Text: render(chain, stmt(k1, "y1", 0)+" "+stmt(k2, "y2", 0))})
+					}
+				}
+			}
+		}
+		return
 	}
 	if strings.HasPrefix(c.Shard, "long/") {
 		var lk int
